@@ -1155,3 +1155,28 @@ Definition ex_scoped_bad : scase :=
            (RErr (P 0) Other) (Some 1) [Done 1; NotCalled] []).
 Lemma ex_scoped_checked : check_scoped ex_scoped = 0%nat /\ check_scoped ex_scoped_bad = 1%nat.
 Proof. vm_compute. auto. Qed.
+
+(* ---- lazily created clients ---- *)
+
+(* Once the client exists (or when creation is immediate) the lazy wrapper is transparent. *)
+Theorem lazy_transparent n :
+  lazy_node PCreated n = n /\ lazy_node PNone n = n /\
+  out (lazy_node (PDelay 0) n) = out n /\ delay (lazy_node (PDelay 0) n) = delay n /\ deaf (lazy_node (PDelay 0) n) = deaf n.
+Proof. destruct n; simpl; auto. Qed.
+
+(* A node behind a provider hears its cancellation whenever the node itself does, so the
+   cancellation theorem applies to it while the provider runs. *)
+Theorem lazy_hears p n : hears n = true -> hears (lazy_node p n) = true.
+Proof. destruct p, n; simpl; auto. Qed.
+
+(* first use of a primary whose provider needs 30 (time units) against a hung node, nothing else
+   answers, caller cancels at 1: returns at 1; what a client that detaches the provider from the
+   call's context shows (returns when the provider gives up) is rejected *)
+Definition ex_lazy : lcase :=
+  mkl [PDelay 30000] [PDelay 30000]
+      (mkc Plain [mkn Hang 0 false] [mkn Hang 0 false] [] [] (Some 100) RCtx (Some 100) [Cancelled 100] [NotCalled]).
+Definition ex_lazy_bad : lcase :=
+  mkl [PDelay 30000] [PDelay 30000]
+      (mkc Plain [mkn Hang 0 false] [mkn Hang 0 false] [] [] (Some 100) RCtx (Some 30000) [Cancelled 30000] [NotCalled]).
+Lemma ex_lazy_checked : check_lazy ex_lazy = 0%nat /\ check_lazy ex_lazy_bad = 1%nat.
+Proof. vm_compute. auto. Qed.
